@@ -634,8 +634,12 @@ protected:
 
     for (auto kv : e) {
       const variable_t &pivot = kv.second;
-      interval_t i = compute_residual(e, pivot) / interval_t(kv.first);
-      if (auto k = i.singleton()) {
+      interval_t residual = compute_residual(e, pivot);
+      interval_t coef(kv.first);
+      interval_t i = residual / coef;
+      auto k = i.singleton();
+      // pivot != k follows only if the division is exact (coef * k == residual)
+      if (k && (i * coef == residual)) {
         if (!add_univar_disequation(pivot, *k)) {
           // set_to_bottom() was already called
           return;
